@@ -12,6 +12,8 @@ SCENARIOS = {
     "sig3": ("signal", 0, [["twait", "wait"], ["set", "reset", "set"], ["wait"]]),
     "mon1": ("monitor", 0, [["mlock", "mwait", "munlock", "mdone"], ["mlock", "mwait", "munlock", "mdone"], ["msetloop"]]),
     "mon2": ("monitor", 0, [["mlock", "mtwait", "munlock", "mdone"], ["mlock", "mwait", "munlock", "mdone"], ["msetloop"], ["mset"]]),
+    "mon3": ("monitor", 0, [["mlock", "mtwait", "munlock"], ["mlock", "mtwait", "munlock"], ["mset"]]),
+    "sig4": ("signal", 0, [["twait"], ["twait"], ["reset", "set"]]),
     "mtx1": ("mutex", 0, [["lock", "lock", "unlock", "tlu", "unlock"], ["tlu", "lock", "unlock"], ["lock", "unlock"]]),
     "sem1": ("sem", 1, [["swait", "ssignal"], ["swait", "ssignal"], ["stwait", "ssignal"]]),
     "sem2": ("sem", 0, [["swait"], ["strywait", "ssignal"], ["stwait", "ssignal"]]),
@@ -79,6 +81,11 @@ def rand_programs(rng):
         return "signal", rng.randint(0, 1), progs
     if k < 0.9:
         w = rng.randint(1, 3)
+        if rng.random() < 0.5:
+            # all waiters timed: a fixed number of set() calls suffices for termination
+            progs = [["mlock", "mtwait", "munlock"] for _ in range(w)]
+            progs += [["mset"] * rng.randint(1, 2) for _ in range(rng.randint(1, 2))]
+            return "monitor", 0, progs
         progs = [["mlock", rng.choice(["mwait", "mwait", "mtwait"]), "munlock", "mdone"] for _ in range(w)]
         progs.append(["msetloop"])
         if rng.random() < 0.4:
